@@ -216,8 +216,16 @@ Definition ctx_h2f (cx : option ctxremap) (cells : list (str * str)) (k : str) :
     end
   end.
 
+(* data_rekeyed[k] = v.  Several headers may denote one field (in a call_webhook row `webhook.body` and
+   `message_text` do): on the repaired tree a BLANK cell does not overwrite what an earlier header of the
+   same field said (`if k in data_rekeyed and v == "": continue`); on the tree with the finding
+   webhook-body-shadowed the last cell wins whatever it holds.  Which of the two the tree does is the
+   PROBED constant rekey_blank_keeps (translator/tables_rowfix.py). *)
+Definition rekey_put (acc : list (str * str)) (k v : str) : list (str * str) :=
+  if rekey_blank_keeps && ocontains str_eqb acc k && is_nil v then acc else oset str_eqb acc k v.
+
 Definition rekey (cx : option ctxremap) (cells : list (str * str)) : res (list (str * str)) :=
-  foldM (fun acc kv => do k <- ctx_h2f cx cells (fst kv); Ok (oset str_eqb acc k (snd kv))) cells [].
+  foldM (fun acc kv => do k <- ctx_h2f cx cells (fst kv); Ok (rekey_put acc k (snd kv))) cells [].
 
 (* ---- the asterisk pre-pass ---------------------------------------------------------- *)
 Definition has_star (k : str) : bool := mem_char c_star k.
